@@ -21,6 +21,12 @@ def fixture_src(rnd, name, params=(), scope=None, autouse=False, alias=None, bod
         kws.append("autouse=True")
     if alias is not None:
         kws.append('name="%s"' % alias)
+    if rnd.random() < 0.12:
+        # keyword arguments that are NOT the fixture's scope, in front of or behind `scope=`
+        extra = rnd.choice(['loop_scope="session"', 'loop_scope="module"', 'loop_scope="class"', "ids=None"])
+        kws.insert(rnd.randint(0, len(kws)), extra)
+        if extra.startswith("loop_scope") and style.startswith("pytest.fixture"):
+            style = "pytest_asyncio.fixture"
     dec = "@" + style
     if kws:
         dec = "@" + style.replace("()", "") + "(" + ", ".join(kws) + ")"
@@ -108,6 +114,17 @@ def gen_workspace(rnd: random.Random, root="/vw", max_depth=3, chain_only=False)
                     body += fixture_src(rnd, n, doc="second binding") + "\n"
             elif kind == "override":
                 body += fixture_src(rnd, n, params=[n]) + "\n"
+            elif kind in ("star", "explicit") and li >= 1 and rnd.random() < 0.3:
+                # the imported module lives `up` directories ABOVE this conftest: a relative import
+                # of up+1 dots (two, three, four ...), sometimes with a same-named decoy module one
+                # directory too deep that nothing imports
+                up = rnd.randint(1, li)
+                mod = helper_module(dirs[li - up], [n] + ([rnd.choice(NAMES)] if rnd.random() < 0.3 else []))
+                if rnd.random() < 0.4 and dirs[li - up + 1] + "/" + mod + ".py" not in files:
+                    files[dirs[li - up + 1] + "/" + mod + ".py"] = "import pytest\n\n" + fixture_src(rnd, n, doc="decoy: one directory too deep") + "\n"
+                    tags.append("import:dots-decoy")
+                src += ("from %s%s import *\n" if kind == "star" else "from %s%s import " + n + "\n") % ("." * (up + 1), mod)
+                tags.append("import:dots%d" % (up + 1))
             elif kind == "star":
                 sub = None
                 if rnd.random() < 0.35:
